@@ -245,11 +245,18 @@ def rule_ready_strict(ctx: Ctx, out: Collector) -> None:
                         contents['node_results']['Q'] = ('visible', 1)
                     preds = ['Q', 'P'] if npreds == 2 else ['P']
                     stubs = {callee.fid: (lambda interp, a, k, s, preds=preds: list(preds))}
-                    try:
-                        outcomes = _run_pred(ctx, pred, contents, key='N', dag_nodes=('N', 'P', 'Q'), stubs=stubs)
-                    except AnalysisError as ex:
-                        raise AnalysisError(f'{name}: {ex}')
-                    vals = sorted({o[1] if o[0] == 'value' else f'raises {o[1]}' for o in outcomes}, key=str)
+                    vals_set = set()
+                    # ... also with a failed node elsewhere in the dag (not an input of N): readiness is about N's inputs only
+                    for failed_elsewhere in (False, True):
+                        world = {'node_results': dict(contents['node_results'])}
+                        if failed_elsewhere:
+                            world['node_results']['E'] = ('visible', value_token(ctx.p, 'EXC'))
+                        try:
+                            outcomes = _run_pred(ctx, pred, world, key='N', dag_nodes=('N', 'P', 'Q', 'E'), stubs=stubs)
+                        except AnalysisError as ex:
+                            raise AnalysisError(f'{name}: {ex}')
+                        vals_set |= {o[1] if o[0] == 'value' else f'raises {o[1]}' for o in outcomes}
+                    vals = sorted(vals_set, key=str)
                     table[f'{npreds} preds, P {pres}:{vc}'] = vals
                     should_wait = pres in ('absent', 'hidden') or vc == 'REC'
                     if should_wait and vals != [False]:
